@@ -106,10 +106,10 @@ PROPS = {
     },
     "C13": {
         "slices": ["C13"],
-        "relevant_diff": lambda part, op: part.startswith("DIFF det:NdJSON") or part.startswith("DIFF dropLastLine") or part.startswith("DIFF jparse"),
-        "assumptions": COMMON_ASSUME + ["encoding/csv is external: CSV/TSV clauses are checked by oracle on quote-free tables only"],
-        "trusted_base": ["NdJSON, dropLastLine, scanLine hand-modelled; encoding/csv not modelled; tie: lines/dll ops at every limit from the end of line 2"],
-        "partial": ["csv_forward / csv_converse: not proved (encoding/csv is external code); oracle-checked on generated quote-free tables"],
+        "relevant_diff": lambda part, op: part.startswith("DIFF det:NdJSON") or part.startswith("DIFF det:Csv") or part.startswith("DIFF det:Tsv") or part.startswith("DIFF dropLastLine") or part.startswith("DIFF jparse"),
+        "assumptions": COMMON_ASSUME + ["encoding/csv (go1.23) is hand-modelled byte-wise in the configuration sv uses (Model/Csv.lean): LazyQuotes, Comment '#', ReuseRecord, FieldsPerRecord 0; bufio.Reader and the 4096-byte buffer make no observable difference (exercised with lines over 4096/8192 bytes)"],
+        "trusted_base": ["NdJSON, dropLastLine, scanLine, sv and the encoding/csv reader hand-modelled; tie: lines/dll ops at every limit from the end of line 2, Csv/Tsv verdicts of the model compared on every lines/det/walk op: exhaustive strings over {a , \" LF CR # TAB} up to length 5/6, quoted / lazily quoted / multi-line cells, comments, bare CR, BOMs, lines over 4096 bytes"],
+        "partial": ["a cut inside a quoted cell that spans lines is outside the forward theorems (dropLastLine cuts at the last LF even inside quotes; such input can be refused: sv_cut_inside_quoted_cell)"],
     },
     "C12": {
         "slices": ["C12"],
